@@ -373,7 +373,7 @@ fn c01_p0_o1_g4_un() {
     scen::<Undirected, 0, 1, 4>()
 }
 
-// TIER: quick BOUNDS: Graph<u8,u8,Directed,u8>; concrete prefix 0 (3 nodes, edges 0->1,1->2,0->1 (parallel)); symbolic op: remove_node(any); observers: counts+nodes for symbolic query arguments
+// TIER: thorough BOUNDS: Graph<u8,u8,Directed,u8>; concrete prefix 0 (3 nodes, edges 0->1,1->2,0->1 (parallel)); symbolic op: remove_node(any); observers: counts+nodes for symbolic query arguments
 #[kani::proof]
 #[kani::unwind(7)]
 fn c01_p0_o2_g0_di() {
@@ -394,7 +394,7 @@ fn c01_p0_o2_g1_di() {
     scen::<Directed, 0, 2, 1>()
 }
 
-// TIER: quick BOUNDS: Graph<u8,u8,Undirected,u8>; concrete prefix 0 (3 nodes, edges 0->1,1->2,0->1 (parallel)); symbolic op: remove_node(any); observers: edges by index/weight for symbolic query arguments
+// TIER: thorough BOUNDS: Graph<u8,u8,Undirected,u8>; concrete prefix 0 (3 nodes, edges 0->1,1->2,0->1 (parallel)); symbolic op: remove_node(any); observers: edges by index/weight for symbolic query arguments
 #[kani::proof]
 #[kani::unwind(7)]
 fn c01_p0_o2_g1_un() {
@@ -611,14 +611,14 @@ fn c01_p0_o5_g3_un() {
     scen::<Undirected, 0, 5, 3>()
 }
 
-// TIER: quick BOUNDS: Graph<u8,u8,Directed,u8>; concrete prefix 0 (3 nodes, edges 0->1,1->2,0->1 (parallel)); symbolic op: retain_nodes(3 symbolic keep bits); observers: counts+nodes for symbolic query arguments
+// TIER: thorough BOUNDS: Graph<u8,u8,Directed,u8>; concrete prefix 0 (3 nodes, edges 0->1,1->2,0->1 (parallel)); symbolic op: retain_nodes(3 symbolic keep bits); observers: counts+nodes for symbolic query arguments
 #[kani::proof]
 #[kani::unwind(7)]
 fn c01_p0_o6_g0_di() {
     scen::<Directed, 0, 6, 0>()
 }
 
-// TIER: quick BOUNDS: Graph<u8,u8,Undirected,u8>; concrete prefix 0 (3 nodes, edges 0->1,1->2,0->1 (parallel)); symbolic op: retain_nodes(3 symbolic keep bits); observers: counts+nodes for symbolic query arguments
+// TIER: thorough BOUNDS: Graph<u8,u8,Undirected,u8>; concrete prefix 0 (3 nodes, edges 0->1,1->2,0->1 (parallel)); symbolic op: retain_nodes(3 symbolic keep bits); observers: counts+nodes for symbolic query arguments
 #[kani::proof]
 #[kani::unwind(7)]
 fn c01_p0_o6_g0_un() {
@@ -891,7 +891,7 @@ fn c01_p1_o2_g1_un() {
     scen::<Undirected, 1, 2, 1>()
 }
 
-// TIER: quick BOUNDS: Graph<u8,u8,Directed,u8>; concrete prefix 1 (3 nodes, edges 0->1, 1->1 (loop), 2->0); symbolic op: remove_node(any); observers: find/contains/edges_connecting for symbolic query arguments
+// TIER: thorough BOUNDS: Graph<u8,u8,Directed,u8>; concrete prefix 1 (3 nodes, edges 0->1, 1->1 (loop), 2->0); symbolic op: remove_node(any); observers: find/contains/edges_connecting for symbolic query arguments
 #[kani::proof]
 #[kani::unwind(7)]
 fn c01_p1_o2_g2_di() {
@@ -912,14 +912,14 @@ fn c01_p1_o2_g3_di() {
     scen::<Directed, 1, 2, 3>()
 }
 
-// TIER: quick BOUNDS: Graph<u8,u8,Undirected,u8>; concrete prefix 1 (3 nodes, edges 0->1, 1->1 (loop), 2->0); symbolic op: remove_node(any); observers: neighbors incl. order for symbolic query arguments
+// TIER: thorough BOUNDS: Graph<u8,u8,Undirected,u8>; concrete prefix 1 (3 nodes, edges 0->1, 1->1 (loop), 2->0); symbolic op: remove_node(any); observers: neighbors incl. order for symbolic query arguments
 #[kani::proof]
 #[kani::unwind(7)]
 fn c01_p1_o2_g3_un() {
     scen::<Undirected, 1, 2, 3>()
 }
 
-// TIER: quick BOUNDS: Graph<u8,u8,Directed,u8>; concrete prefix 1 (3 nodes, edges 0->1, 1->1 (loop), 2->0); symbolic op: remove_node(any); observers: iterators+externals for symbolic query arguments
+// TIER: thorough BOUNDS: Graph<u8,u8,Directed,u8>; concrete prefix 1 (3 nodes, edges 0->1, 1->1 (loop), 2->0); symbolic op: remove_node(any); observers: iterators+externals for symbolic query arguments
 #[kani::proof]
 #[kani::unwind(7)]
 fn c01_p1_o2_g4_di() {
@@ -1129,14 +1129,14 @@ fn c01_p1_o6_g1_un() {
     scen::<Undirected, 1, 6, 1>()
 }
 
-// TIER: quick BOUNDS: Graph<u8,u8,Directed,u8>; concrete prefix 1 (3 nodes, edges 0->1, 1->1 (loop), 2->0); symbolic op: retain_nodes(3 symbolic keep bits); observers: find/contains/edges_connecting for symbolic query arguments
+// TIER: thorough BOUNDS: Graph<u8,u8,Directed,u8>; concrete prefix 1 (3 nodes, edges 0->1, 1->1 (loop), 2->0); symbolic op: retain_nodes(3 symbolic keep bits); observers: find/contains/edges_connecting for symbolic query arguments
 #[kani::proof]
 #[kani::unwind(7)]
 fn c01_p1_o6_g2_di() {
     scen::<Directed, 1, 6, 2>()
 }
 
-// TIER: quick BOUNDS: Graph<u8,u8,Undirected,u8>; concrete prefix 1 (3 nodes, edges 0->1, 1->1 (loop), 2->0); symbolic op: retain_nodes(3 symbolic keep bits); observers: find/contains/edges_connecting for symbolic query arguments
+// TIER: thorough BOUNDS: Graph<u8,u8,Undirected,u8>; concrete prefix 1 (3 nodes, edges 0->1, 1->1 (loop), 2->0); symbolic op: retain_nodes(3 symbolic keep bits); observers: find/contains/edges_connecting for symbolic query arguments
 #[kani::proof]
 #[kani::unwind(7)]
 fn c01_p1_o6_g2_un() {
@@ -1864,7 +1864,7 @@ fn c01_p3_o2_g1_di() {
     scen::<Directed, 3, 2, 1>()
 }
 
-// TIER: quick BOUNDS: Graph<u8,u8,Undirected,u8>; concrete prefix 3 (prefix 1 + remove_node(0)); symbolic op: remove_node(any); observers: edges by index/weight for symbolic query arguments
+// TIER: thorough BOUNDS: Graph<u8,u8,Undirected,u8>; concrete prefix 3 (prefix 1 + remove_node(0)); symbolic op: remove_node(any); observers: edges by index/weight for symbolic query arguments
 #[kani::proof]
 #[kani::unwind(7)]
 fn c01_p3_o2_g1_un() {
